@@ -87,6 +87,8 @@ where
             serde_json::json!({"case": serde_json::to_value(&values[*id]).unwrap_or_default(), "error": msg.chars().take(1500).collect::<String>()}),
         );
     }
+    let rej_log = vcore::verif_root().join("logs").join(format!("progen-rejections-{}-{sub}.log", ctx.prop));
+    let _ = std::fs::remove_file(&rej_log);
     if !res.rejected.is_empty() {
         let mut log = String::new();
         for (id, msg) in &res.rejected {
@@ -97,13 +99,13 @@ where
         let _ = std::fs::write(dir.join(format!("progen-rejections-{}-{sub}.log", ctx.prop)), log);
     }
     if res.rejected.len() * 20 > n_cases.max(1) {
+        // keep judging the programs that did compile: a violation among them is still a violation
         rep.inconclusive = Some(format!(
             "HARNESS: {} of {} generated programs were rejected by rustc (domain drift); first: {}",
             res.rejected.len(),
             n_cases,
             res.rejected.values().next().map(|s| s.chars().take(600).collect::<String>()).unwrap_or_default()
         ));
-        return rep;
     }
     let mut first_failure: Option<(usize, String)> = None;
     for (id, v) in values.iter().enumerate() {
